@@ -241,6 +241,9 @@ def run_native(group, h_name, module, vals, release):
         out = p.stdout
     finally:
         shutil.rmtree(info["root"], ignore_errors=True)
+    if "could not compile" in out:
+        errs = "\n".join(l for l in out.split("\n") if l.startswith("error"))[:600]
+        return False, [], "REPLAY-BUILD-FAILED (the replay overlay does not compile; this is a defect of the harness kit, not a verdict): " + errs
     ran = re.search(r"test result: .* (\d+) passed; (\d+) failed", out)
     if not ran or (int(ran.group(1)) + int(ran.group(2))) == 0:
         return False, [], "replay did not run: " + out[-1500:]
